@@ -18,6 +18,7 @@ pub fn run(rep: &mut Report, tier: Tier, sel: &[&str], eval: Eval<'_>) {
             "edge" => u_edge(rep, eval),
             "dt" => u_dt(rep, tier, eval),
             "raw" => u_raw(rep, tier, eval),
+            "esc" => u_esc(rep, tier, eval),
             "stmt" => u_stmt(rep, tier, eval),
             "stmt3" => u_stmt3(rep, tier, eval),
             "stmt-small" => u_stmt_small(rep, tier, eval),
@@ -263,6 +264,48 @@ fn u_raw(rep: &mut Report, tier: Tier, eval: Eval<'_>) {
     let f = |s: &str, acc: &mut Acc| eval(s.as_bytes(), "U-raw", acc);
     let (total, acc) = sweep_upto(&NUM17, n, "", "", &f);
     rep.absorb("U-raw(num)", &format!("all strings <= {} over NUM17, unframed", n), total, true, t0, acc);
+}
+
+/// unicode escapes: every \\uXXXX over a hex alphabet that reaches the surrogate and range edges in each string kind
+fn u_esc(rep: &mut Report, tier: Tier, eval: Eval<'_>) {
+    let t0 = Instant::now();
+    let hex4 = ["0", "1", "7", "8", "9", "a", "A", "d", "D", "f", "F", "g"];
+    let mut cases: Vec<String> = Vec::new();
+    let n = hex4.len();
+    for idx in 0..n.pow(4) {
+        let mut i = idx;
+        let mut x = String::new();
+        for _ in 0..4 {
+            x.push_str(hex4[i % n]);
+            i /= n;
+        }
+        cases.push(format!("k=\"\\u{}\"\n", x));
+        if tier == Tier::Thorough || idx % 7 == 0 {
+            cases.push(format!("k=\"\"\"a\\u{}\"\"\"", x));
+            cases.push(format!("\"\\u{}\"=1", x));
+        }
+    }
+    let hex8 = ["0", "1", "D", "F"];
+    let m = hex8.len();
+    for idx in 0..m.pow(8) {
+        let mut i = idx;
+        let mut x = String::new();
+        for _ in 0..8 {
+            x.push_str(hex8[i % m]);
+            i /= m;
+        }
+        cases.push(format!("k=\"\\U{}\"\n", x));
+    }
+    // truncated escapes and every escape letter
+    for e in ["\\", "\\u", "\\u0", "\\u00", "\\u000", "\\U0000000", "\\x41", "\\a", "\\e", "\\b", "\\t", "\\n", "\\f", "\\r", "\\\"", "\\\\", "\\/", "\\ ", "\\'", "\\0"] {
+        cases.push(format!("k=\"{}\"\n", e));
+        cases.push(format!("k=\"\"\"{}\"\"\"\n", e));
+        cases.push(format!("k='{}'\n", e));
+        cases.push(format!("\"{}\"=1\n", e));
+    }
+    let f = |s: &str, acc: &mut Acc| eval(s.as_bytes(), "U-esc", acc);
+    let (total, acc) = sweep_list(&cases, &f);
+    rep.absorb("U-esc", "every \\\\uXXXX over 12 hex symbols (surrogate and range edges), every \\\\UXXXXXXXX over {0,1,D,F}, truncated escapes and every escape letter, in basic / multi-line basic strings and quoted keys", total, true, t0, acc);
 }
 
 fn u_stmt(rep: &mut Report, tier: Tier, eval: Eval<'_>) {
